@@ -78,6 +78,8 @@ def init : State :=
 
 inductive Op
   | rds (s : List Name) | deliver | select (r : Nat) (c : Name) | commit (r : Nat)
+  | regen   -- the callback scheduled by a config selector's sendNewServiceConfig (last reference to a cluster
+            -- specifier plugin released): r.sendNewServiceConfig(r.curConfigSelector) = prune + UpdateState
 deriving Repr, DecidableEq
 
 /-- the distinct elements of a list (Go map keys) -/
@@ -181,6 +183,9 @@ def step (s : State) : Op → State
     let r := dedup r
     sendUpdate { s with static := r }
   | .deliver => deliver s
+  | .regen =>
+    let s2 := prune s
+    { s2 with pushedSC := s2.active.map (fun i => i.name), pushes := s2.pushes + 1 }
   | .select id c =>
     -- SelectConfig on the current config selector; an unknown id and a cluster of the current routes
     if s.rpcs.any (·.id == id) then s else
